@@ -141,6 +141,10 @@ func RunGatedHistory(id int, seed int64, brokerSet bool, E int) (h *GHistory, pa
 		mu.Unlock()
 	}
 	G := 2 + rng.Intn(3)
+	long := id%3 == 0 // long histories of one or two callers: stale state needs many calls and clock steps to show
+	if long {
+		G = 1 + rng.Intn(2)
+	}
 	withFails := id%2 == 0
 	idNames := []string{"x", "y", "z"}
 	var pmu sync.Mutex
@@ -219,8 +223,15 @@ func RunGatedHistory(id int, seed int64, brokerSet bool, E int) (h *GHistory, pa
 			defer wg.Done()
 			r := rand.New(rand.NewSource(seed*977 + int64(g)))
 			n := 4 + r.Intn(4)
+			if long {
+				n = 22 + r.Intn(14)
+			}
 			for i := 0; i < n; i++ {
 				x := r.Intn(100)
+				if long && x >= 62 {
+					// fewer odd events, more FlushAll and clock steps
+					x = []int{68, 72, 75, 80, 83, 90, 91, 92, 93, 94, 95}[r.Intn(11)]
+				}
 				switch {
 				case x < 62:
 					doOp(r, "ev")
